@@ -72,3 +72,50 @@ func dumpFn(m *ir.Module, name string) {
 }
 
 var _ = irx.DumpFunction
+
+// TestDevReduce (C13_CASE, C13_MATCH=<substring of the failure message>): greedy line-based
+// reduction of the case's WGSL; the result is written next to the case as <case>.min.json.
+func TestDevReduce(t *testing.T) {
+	p, match := os.Getenv("C13_CASE"), os.Getenv("C13_MATCH")
+	if p == "" || match == "" || os.Getenv("C13_REDUCE") == "" {
+		t.Skip("C13_CASE / C13_MATCH / C13_REDUCE not set")
+	}
+	b, _ := os.ReadFile(p)
+	var wrap struct {
+		Case *pcase `json:"case"`
+	}
+	var c pcase
+	if json.Unmarshal(b, &wrap) == nil && wrap.Case != nil {
+		c = *wrap.Case
+	} else if err := json.Unmarshal(b, &c); err != nil {
+		t.Fatal(err)
+	}
+	if s := os.Getenv("C13_PASSES"); s != "" {
+		c.Passes = strings.Split(s, ",")
+	}
+	noExclude = os.Getenv("C13_STRICT") != ""
+	fails := func(src string) bool {
+		cc := c
+		cc.WGSL = src
+		v := judge(&cc)
+		return !v.ok && strings.Contains(v.msg, match)
+	}
+	if !fails(c.WGSL) {
+		t.Fatal("the case does not fail with the given match")
+	}
+	lines := strings.Split(c.WGSL, "\n")
+	for size := len(lines) / 2; size >= 1; size /= 2 {
+		for i := 0; i+size <= len(lines); {
+			cand := append(append([]string{}, lines[:i]...), lines[i+size:]...)
+			if fails(strings.Join(cand, "\n")) {
+				lines = cand
+			} else {
+				i += size
+			}
+		}
+	}
+	c.WGSL = strings.Join(lines, "\n")
+	out, _ := json.MarshalIndent(&c, "", " ")
+	os.WriteFile(p+".min.json", out, 0o644)
+	fmt.Println(c.WGSL)
+}
